@@ -29,9 +29,9 @@ from .c16 import datetime_julian, doy2date_table
 
 MANIFEST = {
     "level": "other",
-    "technique": "static analysis: data-dependence (slicing) of the year selector on the recomputed month, control-dependence of century corrections on a calendar test, threshold-gap rule on the calendar split, sibling-constant comparison of the JD->date blocks, refusal path rule, term equality of the Easter / Pesach / Moslem recipes with the published algorithms (ring algebra with floor and mod uninterpreted), exact decision-table evaluation of the Moslem year-end carry on every ordering class and of the civil -> day-count stage of gregorian2moslem on every class of civil date (month x year mod 400 over two cycles, Julian years mod 4) against the calendar ordinal, exact execution of both Moslem conversion terms on every Moslem year 1..1600 against the arithmetic Islamic calendar and against each other",
-    "text": "For the Moslem <-> civil conversions the rules decide, for every date at once, three structural necessary conditions of the day bijection (year chosen from the recomputed month, Gregorian correction only in the Gregorian regime, no civil year skipped by the calendar split) plus agreement of the shared JD->date block with Epoch.get_date and the argument refusals. Easter (Gregorian from 1583, Julian before), Pesach and the Moslem -> civil day count are shown to be term-for-term the published recipes (Meeus ch. 8-9), and the Moslem year-end carry to be that of a Julian-calendar year; that the published recipes equal the tabular Computus / arithmetic calendars is trusted. The civil -> Moslem direction is shown to count civil days uniformly (its running day count differs from the calendar ordinal by one constant on every class of date), a necessary condition of consecutive days mapping to consecutive dates. The bijection itself is decided by exact execution of both extracted conversion terms: for every Moslem year 1..1600 the first two days and 29 Dhu al-Hijja (thorough tier: every day, 566987 dates) map to an existing civil date, on the very day the arithmetic Islamic calendar (epoch 16 July 622 Julian, 30-year cycle) gives - hence consecutive dates on consecutive days, months of 29/30 and years of 354/355 days - and convert back to themselves.",
-    "note": "Trusted: the reading of INT(x/100) as a century number; thresholds 1582/1583/2299161 as calendar tests. Trusted: the published recipes. Undecided: Moslem years beyond 1600 AH; float vs exact evaluation of the floors.",
+    "technique": "static analysis: data-dependence (slicing) of the year selector on the recomputed month, control-dependence of century corrections on a calendar test, threshold-gap rule on the calendar split, sibling-constant comparison of the JD->date blocks, refusal path rule, term equality of the Easter / Pesach / Moslem recipes with the published algorithms (ring algebra with floor and mod uninterpreted), exact decision-table evaluation of the Moslem year-end carry on every ordering class and of the civil -> day-count stage of gregorian2moslem on every class of civil date (month x year mod 400 over two cycles, Julian years mod 4) against the calendar ordinal, exact execution of both Moslem conversion terms on every Moslem year 1..2500 against the arithmetic Islamic calendar and against each other, exact execution of the Easter term on every year -4712..10000 against the tabular epact Computus and of the Pesach term on every year 1..3000 against the arithmetic Hebrew calendar",
+    "text": "For the Moslem <-> civil conversions the rules decide, for every date at once, three structural necessary conditions of the day bijection (year chosen from the recomputed month, Gregorian correction only in the Gregorian regime, no civil year skipped by the calendar split) plus agreement of the shared JD->date block with Epoch.get_date and the argument refusals. Easter (Gregorian from 1583, Julian before), Pesach and the Moslem -> civil day count are shown to be term-for-term the published recipes (Meeus ch. 8-9), and the Moslem year-end carry to be that of a Julian-calendar year; that is no longer a matter of trust in the book: the extracted Easter term is executed exactly on every year -4712..10000 and must be the Sunday after the tabular paschal full moon (Gregorian epact with solar and lunar corrections and the 24/25 exceptions from 1583, the 19-year Julian table before), within 22 March..25 April; the extracted Pesach term is executed exactly on every year 1..3000 and must be 15 Nisan of the arithmetic Hebrew calendar (molad plus the four postponements), 163 days before the following 1 Tishri, on a Sunday, Tuesday, Thursday or Saturday - both definitions are written out in the checker independently of the repository and are validated against published dates on every run. A recipe that differs from the published one but passes that execution is not reported. The civil -> Moslem direction is shown to count civil days uniformly (its running day count differs from the calendar ordinal by one constant on every class of date), a necessary condition of consecutive days mapping to consecutive dates. The bijection itself is decided by exact execution of both extracted conversion terms: for every Moslem year 1..2500 the first two days and 29 Dhu al-Hijja (thorough tier: every day, 885922 dates) map to an existing civil date, on the very day the arithmetic Islamic calendar (epoch 16 July 622 Julian, 30-year cycle) gives - hence consecutive dates on consecutive days, months of 29/30 and years of 354/355 days - and convert back to themselves.",
+    "note": "Trusted: the reading of INT(x/100) as a century number; thresholds 1582/1583/2299161 as calendar tests. Undecided: Moslem years beyond 2500 AH; float vs exact (rational) evaluation of the floors and of Pesach's decimal constants.",
 }
 MOD = "Epoch"
 JD_BLOCKS = ["Epoch.get_date", "Epoch.moslem2gregorian", "Epoch.gregorian2moslem"]
@@ -57,10 +57,13 @@ def term_of(repo, q):
 def run(repo, rep, tier):
     rep.decided = ["D1a year selected by the recomputed month", "D1b century correction only under a calendar test", "D1c no year skipped by the calendar split",
                    "D1d JD->date blocks share get_date's constants", "D2 argument refusals"]
-    rep.decided.append("D3 Easter and Pesach equal the published recipes")
-    rep.undecided = ["equivalence of the published recipes with the tabular Computus / Hebrew calendar (trusted)", "Moslem years beyond 1600 AH"]
-    rep.decided.append("D4 Moslem <-> civil bijection, month/year lengths and the 16 July 622 epoch by exact execution on every Moslem year 1..1600 (R-CYCLE)")
-    recipes(repo, rep)
+    rep.decided.append("D3 Easter equals the tabular epact Computus (Sunday, 22 March..25 April) on every year -4712..10000 and Pesach equals 15 Nisan of the "
+                       "arithmetic Hebrew calendar on an allowed weekday on every year 1..3000, by exact execution of the extracted recipes (R-COMPUTUS, R-PESACH); "
+                       "both also equal the published recipes term by term (R-RECIPE)")
+    rep.undecided = ["Moslem years beyond 2500 AH"]
+    rep.decided.append("D4 Moslem <-> civil bijection, month/year lengths and the 16 July 622 epoch by exact execution on every Moslem year 1..2500 (R-CYCLE)")
+    feast = feast_cycle(repo, rep, tier)
+    recipes(repo, rep, feast)
     moslem_carry(repo, rep)
     daycount(repo, rep)
     moslem_cycle(repo, rep, tier)
@@ -169,25 +172,25 @@ def _moslem_chunk(job):
     return n, probs
 
 
+LAST_AH = 2500          # the property's domain: Moslem years 1..2500 (civil 622-07-16 .. 3047)
+
+
 def moslem_cycle(repo, rep, tier):
     """R-CYCLE (Moslem): both conversions are integer recipes; they are executed exactly on the first two and last two days of every
-    Moslem year 1..1600 (where the civil and the Moslem year boundaries interact) and - thorough tier - on every day of those years.
+    Moslem year 1..2500 (where the civil and the Moslem year boundaries interact) and - thorough tier - on every day of those years.
     Each date must map to an existing civil date, on the day the arithmetic Islamic calendar (epoch 16 July 622 Julian, 30-year cycle)
     gives it - which makes consecutive dates consecutive days, months 29/30 and years 354/355 days long - and convert back to itself."""
     rep.rule("R-CYCLE", "Moslem -> civil -> Moslem is the identity, on the day given by the arithmetic Islamic calendar "
-                        "(exact execution of the two extracted conversion terms on every Moslem year 1..1600)")
+                        "(exact execution of the two extracted conversion terms on every Moslem year 1..2500)")
     site = "Epoch.Epoch.moslem2gregorian/gregorian2moslem"
     full = tier == "thorough"
     step = 100
-    jobs = [(repo.root, h0, min(h0 + step, 1601), full) for h0 in range(1, 1601, step)]
-    if full:
-        from concurrent.futures import ProcessPoolExecutor
-        try:
-            with ProcessPoolExecutor(max_workers=14) as ex:
-                results = list(ex.map(_moslem_chunk, jobs))
-        except Exception:
-            results = [_moslem_chunk(j_) for j_ in jobs]
-    else:
+    jobs = [(repo.root, h0, min(h0 + step, LAST_AH + 1), full) for h0 in range(1, LAST_AH + 1, step)]
+    from concurrent.futures import ProcessPoolExecutor
+    try:
+        with ProcessPoolExecutor(max_workers=14 if full else 8) as ex:
+            results = list(ex.map(_moslem_chunk, jobs))
+    except Exception:
         results = [_moslem_chunk(j_) for j_ in jobs]
     n = sum(r[0] for r in results)
     probs = [p for r in results for p in r[1]]
@@ -203,8 +206,172 @@ def moslem_cycle(repo, rep, tier):
                       construct="AH %s" % key, obligation=True)
     if not probs:
         rep.ok("R-CYCLE", site, "%d Moslem dates executed exactly: existing civil date, agreement with the arithmetic calendar, round trip%s"
-               % (n, " (every day of AH 1..1600)" if full else " (first two days and 29 Dhu al-Hijja of every year AH 1..1600)"), obligation=True)
-        rep.floor("Moslem dates executed through both conversions", n, 4500)
+               % (n, " (every day of AH 1..2500)" if full else " (first two days and 29 Dhu al-Hijja of every year AH 1..2500)"), obligation=True)
+        rep.floor("Moslem dates executed through both conversions", n, 7000)
+
+
+# --------------------------------------------------------------------------------------------------------------------------
+# R-COMPUTUS / R-PESACH: exact execution of the two feast recipes on every year of the property's domain, against the calendar
+# definitions written out independently in the checker (tabular epact Computus; arithmetic Hebrew calendar)
+# --------------------------------------------------------------------------------------------------------------------------
+def _jdn_to_civil(j, greg):
+    """inverse of _civil_jdn in a named calendar (Richards' integer algorithm)"""
+    f = j + 1401 + ((((4 * j + 274277) // 146097) * 3) // 4 - 38 if greg else 0)
+    e = 4 * f + 3
+    g = (e % 1461) // 4
+    h = 5 * g + 2
+    d = (h % 153) // 5 + 1
+    m = (h // 153 + 2) % 12 + 1
+    y = e // 1461 - 4716 + (12 + 2 - m) // 12
+    return y, m, d
+
+
+def _named_jdn(y, m, d, greg):
+    a = (14 - m) // 12
+    yy = y + 4800 - a
+    mm = m + 12 * a - 3
+    if greg:
+        return d + (153 * mm + 2) // 5 + 365 * yy + yy // 4 - yy // 100 + yy // 400 - 32045
+    return d + (153 * mm + 2) // 5 + 365 * yy + yy // 4 - 32083
+
+
+def _easter_tabular(y):
+    """Easter by its definition: the Sunday strictly after the paschal full moon, which is the 14th day of the tabular lunation -
+    Gregorian (from 1583): epact from the golden number with the solar (3C/4) and lunar ((8C+5)/25) corrections and the two
+    epact-24/25 exceptions (Clavius' tables in Knuth's arithmetic form); Julian: the 19-year table, full moon = 21 March + (19 g + 15) mod 30.
+    Returns (jdn, (month, day)) in the calendar in force."""
+    greg = y >= 1583
+    g = y % 19
+    if greg:
+        G = g + 1
+        C = y // 100 + 1
+        X = 3 * C // 4 - 12
+        Z = (8 * C + 5) // 25 - 5
+        E = (11 * G + 20 + Z - X) % 30
+        if (E == 25 and G > 11) or E == 24:
+            E += 1
+        N = 44 - E
+        if N < 21:
+            N += 30
+        pfm = _named_jdn(y, 3, 1, True) + N - 1
+    else:
+        pfm = _named_jdn(y, 3, 21, False) + (19 * g + 15) % 30
+    k = pfm + 1
+    while (k + 1) % 7 != 0:
+        k += 1
+    return k, _jdn_to_civil(k, greg)[1:]
+
+
+def _heb_elapsed(y):
+    months = (235 * y - 234) // 19                  # months before Tishri of Hebrew year y (19-year cycle, 7 leap years)
+    parts = 12084 + 13753 * months                  # molad: 29 d 12 h 793 p per month, epoch molad 5 h 204 p
+    day = months * 29 + parts // 25920
+    if (3 * (day + 1)) % 7 < 3:                     # lo ADU rosh: not on Sunday, Wednesday, Friday
+        day += 1
+    return day
+
+
+def _heb_new_year(y):
+    """JDN of 1 Tishri of Hebrew year y (molad + the four dehiyyot), arithmetic Hebrew calendar"""
+    n0, n1, n2 = _heb_elapsed(y - 1), _heb_elapsed(y), _heb_elapsed(y + 1)
+    delay = 2 if n2 - n1 == 356 else (1 if n1 - n0 == 382 else 0)
+    return 347998 + n1 + delay
+
+
+def _oracle_selftest():
+    """the checker's own definitions against published dates (independent of the repository)"""
+    ok = _jdn_to_civil(_heb_new_year(5785), True) == (2024, 10, 3) and _jdn_to_civil(_heb_new_year(5785) - 163, True) == (2024, 4, 23)
+    ok = ok and _jdn_to_civil(_heb_new_year(5784) - 163, True) == (2023, 4, 6) and _jdn_to_civil(_heb_new_year(5761), True) == (2000, 9, 30)
+    ok = ok and [_easter_tabular(y)[1] for y in (2024, 2019, 1818, 1943, 2038, 1179, 711, 1961, 2011)] == \
+        [(3, 31), (4, 21), (3, 22), (4, 25), (4, 25), (4, 1), (4, 12), (4, 2), (4, 24)]
+    return ok
+
+
+def feast_cycle(repo, rep, tier):
+    """R-COMPUTUS, R-PESACH: Epoch.easter and Epoch.jewish_pesach are closed recipes in the year.  Their extracted return terms are
+    executed exactly (rational arithmetic) for every year of the property's domain and compared with the definition the property names:
+    the tabular epact Computus (plus Sunday and 22 March..25 April) and 15 Nisan of the arithmetic Hebrew calendar, 163 days before
+    the following 1 Tishri (plus the weekday rule).  Both tiers: every year -4712..10000 / 1..3000."""
+    from ..rules import eval_exact, NotEvaluable
+    from .c16 import stdlib_prims
+    rep.rule("R-COMPUTUS", "Epoch.easter, executed exactly on every year, is the Sunday after the tabular paschal full moon (22 March..25 April, calendar in force)")
+    rep.rule("R-PESACH", "Epoch.jewish_pesach, executed exactly on every year 1..3000, is 15 Nisan of the arithmetic Hebrew calendar (163 days before 1 Tishri), "
+                         "on a Sunday, Tuesday, Thursday or Saturday")
+    if not _oracle_selftest():
+        raise AnalysisError("the checker's own Computus / Hebrew-calendar definitions fail their published anchors")
+    prims = stdlib_prims(repo)
+    YR = T.sym("NUM_YEAR")
+    status = {}
+    for q, rule in (("Epoch.easter", "R-COMPUTUS"), ("Epoch.jewish_pesach", "R-PESACH")):
+        site = MOD + "." + q
+        fn = repo.func(MOD, q)
+        try:
+            outs, _ = symx.eval_function(repo, MOD, q, arg_terms={fn.args.args[0].arg: YR}, unroll=4)
+            t = symx.return_term(outs)
+        except (AnalysisError, symx.Unsupported) as e:
+            rep.inconcl(rule, site, "recipe not extractable: %s" % e)
+            status[rule] = "inconclusive"
+            continue
+        if t is None:
+            rep.inconcl(rule, site, "no return term")
+            status[rule] = "inconclusive"
+            continue
+        if rule == "R-COMPUTUS":
+            years = list(range(-4712, 10001))
+        else:
+            years = list(range(1, 3001))
+        bad = {}
+        n = 0
+        broke = None
+        for y in years:
+            try:
+                v = eval_exact(t, {YR: Fraction(y), "$memo": {}}, prims)
+            except NotEvaluable as e:
+                broke = "%s at year %d" % (e, y)
+                break
+            except (TypeError, ValueError, ZeroDivisionError, IndexError) as e:
+                bad.setdefault("error", []).append((y, "%s: %s" % (type(e).__name__, e)))
+                continue
+            n += 1
+            if not (isinstance(v, tuple) and len(v) == 2 and all(isinstance(x, (int, Fraction)) and Fraction(x).denominator == 1 for x in v)):
+                bad.setdefault("shape", []).append((y, "returns %r" % (v,)))
+                continue
+            md = (int(v[0]), int(v[1]))
+            greg = y >= 1583
+            if rule == "R-COMPUTUS":
+                jd, ref = _easter_tabular(y)
+                if not ((3, 22) <= md <= (4, 25)) or md[1] > (31 if md[0] == 3 else 30) or md[1] < 1:
+                    bad.setdefault("range", []).append((y, "%s is outside 22 March..25 April" % (md,)))
+                elif (_named_jdn(y, md[0], md[1], greg) + 1) % 7 != 0:
+                    bad.setdefault("sunday", []).append((y, "%s is not a Sunday of the %s calendar" % (md, "Gregorian" if greg else "Julian")))
+                elif md != ref:
+                    bad.setdefault("computus", []).append((y, "%s, the tabular Computus gives %s" % (md, ref)))
+            else:
+                jd = _heb_new_year(y + 3761) - 163
+                ref = _jdn_to_civil(jd, greg)
+                if md[0] not in (3, 4) or not (1 <= md[1] <= (31 if md[0] == 3 else 30)):
+                    bad.setdefault("range", []).append((y, "%s is not a date in March/April" % (md,)))
+                elif (_named_jdn(y, md[0], md[1], greg) + 1) % 7 not in (0, 2, 4, 6):
+                    bad.setdefault("weekday", []).append((y, "%s falls on a Monday, Wednesday or Friday" % (md,)))
+                elif (y,) + md != ref:
+                    bad.setdefault("nisan15", []).append((y, "%s, 15 Nisan %d (1 Tishri %d - 163 days) is %s" % (md, y + 3760, y + 3761, ref[1:])))
+        if broke:
+            rep.inconcl(rule, site, "recipe not executable: " + broke)
+            status[rule] = "inconclusive"
+            continue
+        for kind, lst in sorted(bad.items()):
+            y0, text = lst[0]
+            # key: kind + the residue class of the first failing year in the recipe's own cycle, so that a different slip is a different finding
+            rep.violation(rule, site, "%s:%s:%d" % (q.split(".")[-1], kind, y0),
+                          "%s(%d) = %s  (%d of %d executed years fail this way; first: %s)" % (q, y0, text, len(lst), n, ", ".join(str(a) for a, _ in lst[:8])),
+                          construct="year %d" % y0, obligation=True)
+        if not bad:
+            rep.ok(rule, site, "%d years executed exactly (every year %d..%d): every result %s" % (
+                n, years[0], years[-1],
+                "is the Sunday after the tabular paschal full moon, within 22 March..25 April" if rule == "R-COMPUTUS" else "is 15 Nisan of the arithmetic Hebrew calendar on an allowed weekday"), obligation=True)
+        status[rule] = "bad" if bad else "ok"
+        rep.floor("years executed through %s" % q, n, 3000 if rule == "R-PESACH" else 14713)
+    return status
 
 
 def daycount(repo, rep):
@@ -511,7 +678,8 @@ def moslem_carry(repo, rep):
         rep.ok("R-RECIPE", site, "J, X equal Meeus ch. 9; year-end carry is that of a Julian year on all %d cases of (J vs 365/366, X mod 4)" % n, obligation=True)
 
 
-def recipes(repo, rep):
+def recipes(repo, rep, feast=None):
+    feast = feast or {}
     from ..poly import Algebra
     rep.rule("R-RECIPE", "integer recipe equals the published reference algorithm (term equality modulo ring algebra; floor and mod uninterpreted)")
     alg = Algebra()
@@ -596,6 +764,9 @@ def recipes(repo, rep):
         rep.ok("R-RECIPE", site, "Butcher's Gregorian algorithm from 1583, Meeus' Julian algorithm before: (month, day) terms equal the reference", obligation=True)
     elif detail is None:
         rep.inconcl("R-RECIPE", site, "Easter: the step from the day offset to (month, day) could not be executed on its 36 values")
+    elif feast.get("R-COMPUTUS") == "ok":
+        # not the published recipe, but the exhaustive execution shows it computes the same feast: no evidence of misbehaviour
+        rep.ok("R-RECIPE", site, "not Butcher's / Meeus' published recipe (%s), but it reproduces the tabular Computus on every year -4712..10000 (R-COMPUTUS)" % detail, obligation=True)
     else:
         rep.violation("R-RECIPE", site, "easter-recipe", "Easter: " + detail, obligation=True)
     # ---- Pesach
@@ -668,7 +839,9 @@ def recipes(repo, rep):
         thr_r = {x[3][1] for x in T.walk(t) if x[0] == "cmp" and x[3][0] == "num" and F_("0.6") < x[3][1] < F_("0.9")}
         if thr_r != {F_("0.632870370"), F_("0.897723765")}:
             problems.append("postponement thresholds are %s" % sorted(map(float, thr_r)))
-    if problems:
+    if problems and feast.get("R-PESACH") == "ok":
+        rep.ok("R-RECIPE", site, "not the published recipe (%s), but it reproduces 15 Nisan of the arithmetic Hebrew calendar on every year 1..3000 (R-PESACH)" % "; ".join(problems)[:200], obligation=True)
+    elif problems:
         for p_ in problems:
             rep.violation("R-RECIPE", site, "pesach:" + p_[:30], "Pesach: " + p_, obligation=True)
     else:
